@@ -37,7 +37,7 @@ try:
     dest = os.path.join(wt, destdir, "zz_seed_demo_test.go")
     shutil.copyfile(demo, dest)
     tests = "|".join(re.findall(r"^func (Test\w+)\(", open(demo).read(), re.M))
-    rc, out = sh("go test -count=1 -run '^(%s)$' ./%s" % (tests, destdir))
+    rc, out = sh("go test " + os.environ.get("SEED_FLAGS", "") + " -count=1 -run '^(%s)$' ./%s" % (tests, destdir))
     log.append("demo without change: rc=%d" % rc)
     if rc != 0:
         print("FAIL %s: demo does not pass on HEAD without the change\n%s" % (name, out[-1500:]))
@@ -60,7 +60,7 @@ try:
         sys.exit(1)
     rc2, diff = sh("git diff")
     shutil.copyfile(demo, dest)
-    rc, out = sh("timeout 300 go test -count=1 -run '^(%s)$' ./%s" % (tests, destdir))
+    rc, out = sh("timeout 300 go test " + os.environ.get("SEED_FLAGS", "") + " -count=1 -run '^(%s)$' ./%s" % (tests, destdir))
     log.append("demo with change: rc=%d" % rc)
     if rc == 0:
         print("FAIL %s: demo passes with the change" % name)
